@@ -83,6 +83,18 @@ func vpPut32(b []byte, v uint32) {
 // vpCoords: the coordinate set used for live / fresh chunks.
 var vpCoords = [][2]int{{0, 0}, {31, 31}, {1, 0}, {0, 1}, {7, 5}, {31, 0}}
 
+var vpCoordLimit = 0
+
+func vpLiveCoords() int {
+	if vpCoordLimit > 0 {
+		return vpCoordLimit
+	}
+	if vp.Tier() == 0 {
+		return 3
+	}
+	return len(vpCoords)
+}
+
 // vpChunk is the model of one live chunk.
 type vpChunk struct {
 	x, z       int
@@ -114,7 +126,7 @@ func vpArbitraryState(K, S int) []vpChunk {
 	chunks := make([]vpChunk, K)
 	for i := range chunks {
 		c := &chunks[i]
-		ci := vp.Choice(len(vpCoords))
+		ci := vp.Choice(vpLiveCoords())
 		c.x, c.z = vpCoords[ci][0], vpCoords[ci][1]
 		for k := 0; k < i; k++ {
 			vp.Assume(chunks[k].x != c.x || chunks[k].z != c.z)
@@ -129,11 +141,14 @@ func vpArbitraryState(K, S int) []vpChunk {
 		c.sec = int32(vpConcrete(int(c.sec), S))
 		c.cnt = int32(vpConcrete(int(c.cnt), 4))
 		// length: smallest, largest and one in between that fits the run
-		switch vp.Choice(3) {
+		switch vp.Choice(2 + vp.Tier()) {
 		case 0:
-			c.length = 1
-		case 1:
 			c.length = 4096*int(c.cnt) - 4
+		case 1:
+			c.length = 4096*(int(c.cnt)-1) - 4 + 1 // smallest length needing cnt sectors
+			if c.length < 1 {
+				c.length = 1
+			}
 		default:
 			c.length = 4096*int(c.cnt) - 4 - 1000
 		}
@@ -191,3 +206,11 @@ func vpExpectChunk(r *Region, c vpChunk, label string) {
 	vp.Assert(len(data) == c.length, label+": length")
 	vp.Assert(data[0] == c.first && data[len(data)-1] == c.end, label+": bytes")
 }
+
+func vpC14Lens() []int {
+	if vp.Tier() == 0 {
+		return []int{1, 4092, 4093}
+	}
+	return []int{1, 4091, 4092, 4093, 8187, 8188, 8189}
+}
+
